@@ -45,8 +45,13 @@ impl Nd for bool {
     #[cfg(not(kani))]
     fn nd() -> Self { u8::nd() & 1 == 1 }
 }
-impl<T: Nd, const N: usize> Nd for [T; N] {
+#[cfg(kani)]
+impl<T: Nd + kani::Arbitrary, const N: usize> Nd for [T; N] {
     #[inline(always)]
+    fn nd() -> Self { kani::any() }
+}
+#[cfg(not(kani))]
+impl<T: Nd, const N: usize> Nd for [T; N] {
     fn nd() -> Self { core::array::from_fn(|_| T::nd()) }
 }
 
